@@ -54,6 +54,9 @@ partial def decodeVal (j : Json) : GoVal :=
     (match getS j "k" with
      | "A" => .struct [([65], true), ([97], false)] fs
      | "K" => .struct [([75], true), ([107], false)] fs
+     | "F" => .struct [("hidden".toUTF8.toList, false), ([65], true), ([75], true)] fs
+     | "R1" => .struct [([75], true), ([65], true)] fs
+     | "R2" => .struct [("Pad".toUTF8.toList, true), ("priv".toUTF8.toList, false), ([75], true)] fs
      | _ => .struct [([104, 105, 100, 100, 101, 110], false)] fs)
   | "func" => .func
   | "chan" => .chan
